@@ -38,3 +38,10 @@ Print Assumptions C13_one_term_per_height.
 Theorem C13_state_setters_monotone : forall ops s, st_le s (fold_left st_step ops s).
 Proof. exact st_run_monotone. Qed.
 Print Assumptions C13_state_setters_monotone.
+
+(* tie to the real runtime: the acceptor that the check evaluates on every node's recorded observation sequence
+   (callbacks, SPI calls, timer arming, elections, exit) accepts every run of the two-goroutine model *)
+From LH Require Import Loops Runtime RuntimeFacts.
+Theorem C13_model_runs_are_accepted : forall ls s, lrun l_init ls = Some s -> rt_check (lobs l_init ls) = true.
+Proof. exact model_runs_are_accepted. Qed.
+Print Assumptions C13_model_runs_are_accepted.
